@@ -32,7 +32,13 @@ CONSTANT MaxLen
 
 (* character classes an argument text is built from (one representative byte each, see c24.py) *)
 TextChars == {"a", "D", "sp", "tab", "nl", "sq", "dq", "dol", "bs", "bq", "semi", "amp", "pipe",
-              "lpar", "lt", "star", "qm", "hash", "tilde", "eq", "dash", "at"}
+              "lpar", "lt", "star", "qm", "hash", "tilde", "eq", "dash", "at",
+              "vt", "ff", "nel", "nbsp", "emsp", "idsp"}
+(* vt = U+000B, ff = U+000C, nel = U+0085, nbsp = U+00A0, emsp = U+2003, idsp = U+3000: white space for
+   Rust's char::is_whitespace (what wild's response-file lexer splits on) but ORDINARY characters for
+   bash, whose blanks are space and tab only.  The asymmetry matters: an at-file must escape them, a
+   shell script need not (and inside single quotes nothing is special anyway). *)
+UniWs == {"vt", "ff", "nel", "nbsp", "emsp", "idsp"}
 (* further plain characters used only by the fixed parts of the script *)
 NameCh(c) == c \in {"a", "D", "w", "L", "h", "d", "O", "U", "T", "o"}
 Blank(c) == c \in {"sp", "tab"}
@@ -173,7 +179,7 @@ ShellWords(s, text) == LexU(s, 1, <<>>, FALSE, FALSE, Start, text)
 
 (* ----------------------------------------------------------------------- *)
 (* wild's response-file lexer (libwild/src/args.rs arguments_from_string)  *)
-Ws(c) == c \in {"sp", "tab", "nl"}
+Ws(c) == c \in {"sp", "tab", "nl"} \cup UniWs             \* char::is_whitespace, as in arguments_from_string
 Quote(c) == c \in {"sq", "dq"}
 NoHeap == <<"none">>
 PushHeap(out, heap) == IF heap = NoHeap THEN out ELSE Append(out, heap[2])
@@ -229,8 +235,8 @@ QPre == <<"dq", "dol", "D", "dq", "slash">>               \* "$D"/
 
 RECURSIVE RspEsc(_)
 RspEsc(t) == IF t = <<>> THEN <<>>                        \* write_quoted(.., is_rsp_file = true)
-             ELSE (IF Head(t) \in {"sp", "tab", "nl", "sq", "dq", "bs"} THEN <<"bs", Head(t)>> ELSE <<Head(t)>>)
-                  \o RspEsc(Tail(t))
+             ELSE (IF Ws(Head(t)) \/ Head(t) \in {"sq", "dq", "bs"} THEN <<"bs", Head(t)>> ELSE <<Head(t)>>)
+                  \o RspEsc(Tail(t))                          \* ch.is_whitespace() || ' " \
 
 Mid(kind, t) ==
     CASE kind = "file"    -> QPre \o Sq(<<"a", "slash">> \o t)
